@@ -41,7 +41,7 @@ TARGETS = [('path', 4), ('existing', 4), ('handle', 2), ('dirty_handle', 2), ('b
 
 def gen_plan(rng, tier, index):
     kind = rng.wpick([('rdms', 4), ('data', 3), ('result', 2)])
-    plan = {'kind': kind, 'decorate': rng.subset(['unicode', 'naninf', 'matrix', 'nomeasure', 'floatdesc', 'emptystr', 'ragged', 'emptyarr', 'bigendian', 'nonestr'], 0.0, 0.8),
+    plan = {'kind': kind, 'decorate': rng.subset(['unicode', 'naninf', 'matrix', 'nomeasure', 'floatdesc', 'emptystr', 'ragged', 'emptyarr', 'bigendian', 'nonestr', 'blanks'], 0.0, 0.8),
             'dec_seed': rng.randrange(10 ** 6)}
     if kind == 'rdms':
         plan['family'] = gen_family(rng, n_cond=(2, 14) if rng.chance(0.4) else (2, 8), n_rdm=(1, 6))
@@ -315,6 +315,12 @@ def _decorate(obj, plan, kind):
         o.descriptors['count'] = 7
     if 'emptystr' in dec:
         o.descriptors['note'] = ''
+    if 'blanks' in dec:
+        # white space is part of a label: 'face ' and 'face' are different conditions
+        ws = ['face', 'face ', ' face', 'face\t', 'fa ce', 'face\u3000', 'face\n']
+        per_item['wslab'] = [ws[i % len(ws)] for i in range(n_item)]
+        per_col['wscol'] = np.array([ws[(i + 1) % len(ws)] for i in range(n_col)])
+        o.descriptors['wsnote'] = ' padded '
     if 'nonestr' in dec:
         # strings that spell a special value are still strings
         o.descriptors['noise_norm'] = 'None'
